@@ -410,6 +410,45 @@ def consumer_resume_cases(chk):
                  "the consumer must still see the records in the order sent", [dict(queued=2, direction="s2r")], viol)
 
 
+def body_then_records_cases(chk):
+    """a file body read through writeToFile(expected=N) followed by further records read with receive_record(), the way the file
+    transfer uses one connection: q of the records are already queued when the consumer is attached, the rest arrive later"""
+    viol = []
+    keys = set()
+    n = 0
+    records = [rec(i, 4 + i) for i in range(6)]
+    for direction in ("s2r", "r2s"):
+        for k in (0, 1, 2, 3):                      # the body is exactly the first k records
+            for q in range(0, len(records) + 1):     # records already queued when the consumer is attached
+                n += 1
+                w, src, dst, link, to_side, stream, bounds = build(records, direction)
+                cut = bounds[q - 1][1] if q else 0
+                if cut:
+                    feed(w, link, to_side, dst, stream[:cut])
+                sink = io.BytesIO()
+                res = []
+                dst.writeToFile(sink, sum(len(r) for r in records[:k])).addCallbacks(lambda v: res.append(("ok", v)),
+                                                                                    lambda f: res.append(("fail", type(f.value).__name__)))
+                for (a, b) in bounds[q:]:
+                    feed(w, link, to_side, dst, stream[a:b])
+                got, failed = [], []
+                for _ in records[k:]:
+                    dst.receive_record().addCallbacks(got.append, lambda f: failed.append(type(f.value).__name__))
+                keys.add((direction, k, q, sink.getvalue() == b"".join(records[:k]), got == records[k:]))
+                if sink.getvalue() != b"".join(records[:k]) or res != [("ok", sum(len(r) for r in records[:k]))]:
+                    viol.append(dict(oracle="exact-records", sig="body-then-records:body",
+                                     msg="body of %d records, %d queued at attach: consumer got %d bytes, result %r" % (k, q, len(sink.getvalue()), res),
+                                     case=dict(direction=direction, body_records=k, queued=q)))
+                if got != records[k:] or failed:
+                    viol.append(dict(oracle="exact-records", sig="body-then-records:order",
+                                     msg="body of %d records, %d queued at attach: the records after the body were read as lengths %r, sent %r (failed %r)" % (
+                                         k, q, [len(x) for x in got], [len(x) for x in records[k:]], failed),
+                                     case=dict(direction=direction, body_records=k, queued=q)))
+    chk.add_enum("body-then-records", n, keys, "6 records; the first k (0..3) are read as a file body through writeToFile(expected), the others with "
+                 "receive_record(); q (0..6) records are already queued when the consumer is attached, the rest arrive afterwards, both directions: "
+                 "the body is byte-exact and the later records come out whole and in the order sent", [dict(body_records=1, queued=4)], viol)
+
+
 def long_lived_cases(chk):
     """time passes on an established connection (more than the handshake TIMEOUT, at every point between two records): a faithful
     stream is still delivered whole and in order, nothing drops the connection"""
@@ -465,6 +504,7 @@ def run(chk):
     if not getattr(chk, "only", None):
         consumer_resume_cases(chk)
         long_lived_cases(chk)
+        body_then_records_cases(chk)
         enumerate_manipulations(chk)
 
 
